@@ -120,6 +120,13 @@ func (r *Reporter) Report(v Violation) bool {
 		if f.sre.MatchString(v.Symptom) && f.re.MatchString(v.Key) {
 			r.knownHits[f.ID]++
 			r.suppressed++
+			if p := os.Getenv("VERIF_DUMP_KNOWN"); p != "" {
+				// debugging aid: which cases a known finding absorbed
+				if fh, err := os.OpenFile(p, os.O_APPEND|os.O_CREATE|os.O_WRONLY, 0o644); err == nil {
+					fmt.Fprintf(fh, "%s\t%s\t%s\n", f.ID, v.Symptom, v.Key)
+					fh.Close()
+				}
+			}
 			return false
 		}
 	}
